@@ -706,6 +706,456 @@ def extract_relurl(repo: Path):
     return {"normalise_mode": mode, "relurl_resolves": resolves}
 
 
+# ----------------------------------------------------------------- assets: `{{ project_url }}/<path>` links vs Documentation.writeout
+
+def _merge_pieces(ps):
+    """adjacent literals joined; empty literals dropped"""
+    out = []
+    for k, v in ps:
+        if k == "lit":
+            if not v:
+                continue
+            if out and out[-1][0] == "lit":
+                out[-1] = ("lit", out[-1][1] + v)
+                continue
+        out.append((k, v))
+    return out
+
+
+def _data_key(n):
+    """`self.data["k"]` -> k"""
+    if isinstance(n, ast.Subscript) and ast.unparse(n.value) == "self.data" and isinstance(n.slice, ast.Constant) \
+            and isinstance(n.slice.value, str):
+        return n.slice.value
+    return None
+
+
+def asset_py_cond(n):
+    """conditions of the `if`s of Documentation.writeout over the settings dictionary `self.data` (None values are
+    dropped from it in __init__, so `"k" in self.data` <-> the template variable `k` is defined and true for Path values)"""
+    if isinstance(n, ast.BoolOp):
+        op = "and" if isinstance(n.op, ast.And) else "or"
+        out = asset_py_cond(n.values[0])
+        for v in n.values[1:]:
+            out = (op, out, asset_py_cond(v))
+        return out
+    if isinstance(n, ast.UnaryOp) and isinstance(n.op, ast.Not):
+        return ("not", asset_py_cond(n.operand))
+    if isinstance(n, ast.Compare) and len(n.ops) == 1 and isinstance(n.left, ast.Constant) and isinstance(n.left.value, str) \
+            and ast.unparse(n.comparators[0]) == "self.data":
+        if isinstance(n.ops[0], ast.In):
+            return ("opt", n.left.value)
+        if isinstance(n.ops[0], ast.NotIn):
+            return ("not", ("opt", n.left.value))
+    if _data_key(n):
+        return ("opt", _data_key(n))
+    if _settings_opt(n):
+        return ("opt", _settings_opt(n))
+    # anything else: an uninterpreted boolean (the theorem quantifies over its values)
+    return ("opt", "?" + re.sub(r"\s+", " ", ast.unparse(n))[:60])
+
+
+def _dyn_key_py(n):
+    """key of a dynamic path piece (the template side must produce the same key for the same value)"""
+    if isinstance(n, ast.Call) and ast.unparse(n.func) in ("os.path.basename", "path.basename") and len(n.args) == 1:
+        k = _data_key(n.args[0])
+        if k:
+            return f"basename({k})"
+    k = _data_key(n)
+    if k:
+        return k
+    return "py:" + re.sub(r"\s+", " ", ast.unparse(n))
+
+
+def _py_pieces(n, env):
+    """path expression -> (rooted at the output directory?, pieces)"""
+    if isinstance(n, ast.BinOp) and isinstance(n.op, ast.Div):
+        rooted, left = _py_pieces(n.left, env)
+        _r, right = _py_pieces(n.right, env)
+        if left is None or right is None:
+            return rooted, None
+        return rooted, left + ([("lit", "/")] if left else []) + right
+    if isinstance(n, ast.Name):
+        if n.id in env:
+            return env[n.id]
+        return False, [("dyn", "py:" + n.id)]
+    if isinstance(n, ast.Constant) and isinstance(n.value, str):
+        return False, [("lit", n.value)]
+    if isinstance(n, ast.JoinedStr):
+        ps = []
+        for v in n.values:
+            if isinstance(v, ast.Constant):
+                ps.append(("lit", str(v.value)))
+            else:
+                ps.append(("dyn", _dyn_key_py(v.value)))
+        return False, ps
+    if _data_key(n) == "output_dir" or ast.unparse(n) in ("self.out_dir", "self.settings.output_dir"):
+        return True, []
+    return False, [("dyn", _dyn_key_py(n))]
+
+
+def _shipped_listing(repo: Path, d: str):
+    base = repo / "ford" / d
+    if not base.is_dir():
+        raise LookupError(f"Documentation.writeout copies ford/{d}, which is not a directory of the package")
+    return sorted(str(f.relative_to(base)) for f in base.rglob("*") if f.is_file())
+
+
+COPY_FUNCS = {"shutil.copy": "file", "shutil.copy2": "file", "shutil.copyfile": "file", "copytree": "tree", "shutil.copytree": "tree"}
+
+
+def extract_asset_writes(repo: Path):
+    """Every file / tree that Documentation.writeout copies below the output directory, and the pages it writes whose
+    output file is a constant (index.html, search.html): (pieces of the destination, kind, condition)."""
+    import ford.output as fo
+
+    tree = ast.parse((repo / "ford" / "output.py").read_text())
+    wo = _func(tree, "Documentation", "writeout")
+    writes = []
+    seen_calls = []
+
+    def visit(stmts, conds, env):
+        for s in stmts:
+            if isinstance(s, (ast.Assign, ast.AnnAssign)):
+                tgt = s.targets[0] if isinstance(s, ast.Assign) else s.target
+                if isinstance(tgt, ast.Name) and s.value is not None:
+                    env[tgt.id] = _py_pieces(s.value, env)
+                continue
+            if isinstance(s, ast.If):
+                c = asset_py_cond(s.test)
+                visit(s.body, conds + [c], dict(env))
+                visit(s.orelse, conds + [("not", c)], dict(env))
+                continue
+            if isinstance(s, ast.For):
+                if isinstance(s.iter, ast.List) and isinstance(s.target, ast.Name) \
+                        and all(isinstance(e, ast.Constant) and isinstance(e.value, str) for e in s.iter.elts):
+                    for e in s.iter.elts:
+                        env2 = dict(env)
+                        env2[s.target.id] = (False, [("lit", e.value)])
+                        visit(s.body, conds, env2)
+                else:
+                    env2 = dict(env)
+                    for t in ast.walk(s.target):
+                        if isinstance(t, ast.Name):
+                            env2.pop(t.id, None)
+                    visit(s.body, conds, env2)
+                continue
+            if isinstance(s, ast.Try):
+                visit(s.body, conds, dict(env))
+                visit(s.orelse, conds, dict(env))
+                visit(s.finalbody, conds, dict(env))
+                for h in s.handlers:
+                    visit(h.body, conds + [("opt", "?except")], dict(env))
+                continue
+            if isinstance(s, (ast.With,)):
+                visit(s.body, conds, env)
+                continue
+            if isinstance(s, ast.Expr) and isinstance(s.value, ast.Call):
+                fn = ast.unparse(s.value.func)
+                if fn in COPY_FUNCS and len(s.value.args) >= 2:
+                    seen_calls.append(s.value)
+                    rooted, dest = _py_pieces(s.value.args[1], env)
+                    if not rooted or dest is None:
+                        raise LookupError("Documentation.writeout: destination not below the output directory: " + ast.unparse(s.value))
+                    dest = _merge_pieces(dest)
+                    if COPY_FUNCS[fn] == "file":
+                        writes.append((dest, ("file",), conj(conds), ast.unparse(s.value)))
+                    else:
+                        src = s.value.args[0]
+                        if isinstance(src, ast.BinOp) and isinstance(src.op, ast.Div) and ast.unparse(src.left) == "loc":
+                            _r, sp = _py_pieces(src.right, env)
+                            sp = _merge_pieces(sp or [])
+                            if len(sp) != 1 or sp[0][0] != "lit":
+                                raise LookupError("Documentation.writeout: copytree of a computed package directory: " + ast.unparse(s.value))
+                            writes.append((dest, ("shipped", _shipped_listing(repo, sp[0][1])), conj(conds), ast.unparse(s.value)))
+                        else:
+                            writes.append((dest, ("user",), conj(conds), ast.unparse(s.value)))
+                elif fn == "self.tipue.print_output":
+                    # the search index: Tipue_Search_JSON_Generator(settings.output_dir, ..).print_output()
+                    tt = ast.parse((repo / "ford" / "tipue_search.py").read_text())
+                    po = _func(tt, "Tipue_Search_JSON_Generator", "print_output")
+                    tgt = None
+                    for a in po.body:
+                        if isinstance(a, ast.Assign) and ast.unparse(a.targets[0]) == "path":
+                            _r, tgt = _py_pieces(a.value, {})
+                            if not ast.unparse(a.value).startswith("self.output_path /"):
+                                tgt = None
+                    if not tgt or "with open(path, 'w'" not in ast.unparse(po):
+                        raise LookupError("Tipue_Search_JSON_Generator.print_output: `path = self.output_path / ...` + open(path, 'w') not found")
+                    if "Tipue_Search_JSON_Generator(settings.output_dir," not in re.sub(r"\s+", "", ast.unparse(_func(tree, "Documentation", "__init__"))):
+                        raise LookupError("Documentation.__init__: the search index is not written below settings.output_dir")
+                    # drop the leading dynamic piece `self.output_path`
+                    tgt = _merge_pieces(tgt)
+                    if not (tgt and tgt[0][0] == "dyn" and tgt[1][0] == "lit" and tgt[1][1].startswith("/")):
+                        raise LookupError("Tipue_Search_JSON_Generator.print_output: unexpected path expression")
+                    writes.append(([("lit", tgt[1][1][1:])] + tgt[2:], ("file",), conj(conds), "self.tipue.print_output() -> " + show_pieces(tgt)))
+    out_env = {}
+    visit(wo.body, [], out_env)
+    n_calls = sum(1 for n in ast.walk(wo) if isinstance(n, ast.Call) and ast.unparse(n.func) in COPY_FUNCS)
+    if n_calls != len({id(c) for c in seen_calls}) or not writes:
+        raise LookupError(f"Documentation.writeout: {n_calls} copy calls, {len({id(c) for c in seen_calls})} recognised as statements")
+    # the pages with a constant output file that writeout writes unconditionally: `[self.index, self.search]`
+    items = None
+    for n in ast.walk(wo):
+        if isinstance(n, ast.Call) and ast.unparse(n.func) == "chain" and any(isinstance(a, ast.List) for a in n.args):
+            items = [ast.unparse(e) for a in n.args if isinstance(a, ast.List) for e in a.elts]
+    if not items:
+        raise LookupError("Documentation.writeout: chain(..., [self.index, self.search]) not found")
+    lt = _func(tree, "ListTopPage", "outfile")
+    if "return self.out_dir / self.template_path" not in ast.unparse(lt):
+        raise LookupError("ListTopPage.outfile is not out_dir / template_path")
+    init = _func(tree, "Documentation", "__init__")
+    for it in items:
+        cls = None
+        for n in init.body:
+            if isinstance(n, ast.Assign) and ast.unparse(n.targets[0]) == it and isinstance(n.value, ast.Call):
+                cls = ast.unparse(n.value.func)
+        k = getattr(fo, cls, None) if cls else None
+        if k is None or not issubclass(k, fo.ListTopPage) or not isinstance(getattr(k, "template_path", None), str):
+            raise LookupError(f"Documentation.writeout: page {it} is not an unconditionally made ListTopPage with a constant template_path")
+        writes.append(([("lit", k.template_path)], ("page",), ("tt",), f"{it}.writeout() -> {cls}.outfile"))
+    # the settings dictionary has no None values (that is what makes `"k" in self.data` the template's `{% if k %}`)
+    if "self.data = {k: v for k, v in asdict(settings).items() if v is not None}" not in ast.unparse(init):
+        raise LookupError("Documentation.__init__: self.data is no longer the settings without None values")
+    return writes
+
+
+def asset_j_cond(n):
+    from jinja2 import nodes as N
+
+    if isinstance(n, N.And):
+        return ("and", asset_j_cond(n.left), asset_j_cond(n.right))
+    if isinstance(n, N.Or):
+        return ("or", asset_j_cond(n.left), asset_j_cond(n.right))
+    if isinstance(n, N.Not):
+        return ("not", asset_j_cond(n.node))
+    if isinstance(n, N.Name):
+        return ("opt", n.name)
+    # `flag|lower == 'true'` of a boolean setting
+    if isinstance(n, N.Compare) and len(n.ops) == 1 and n.ops[0].op == "eq" and isinstance(n.ops[0].expr, N.Const) \
+            and n.ops[0].expr.value == "true" and isinstance(n.expr, N.Filter) and n.expr.name == "lower" \
+            and isinstance(n.expr.node, N.Name):
+        return ("opt", n.expr.node.name)
+    return ("opt", "?" + re.sub(r"\s+", " ", repr(n))[:60])
+
+
+def _dyn_key_j(n):
+    from jinja2 import nodes as N
+
+    if isinstance(n, N.Call) and isinstance(n.node, N.Getattr) and n.node.attr == "basename" and isinstance(n.node.node, N.Name) \
+            and n.node.node.name == "path" and len(n.args) == 1 and isinstance(n.args[0], N.Name):
+        return f"basename({n.args[0].name})"
+    if isinstance(n, N.Name):
+        return n.name
+    return "j:" + re.sub(r"\s+", " ", repr(n))[:80]
+
+
+ASSET_ATTR_RE = re.compile(r'<(\w+)\b[^<>]*?\s(href|src|action|data|poster)="' + re.escape(PU) + r'/([^"]*)"', re.S)
+
+
+def extract_asset_links(repo: Path, nav_entries):
+    """Every `<tag attr="{{ project_url }}/<path>">` of every template that is not one of the navigation links into
+    lists/ or at project.X[0] (those are `navConds`): (template, tag, attr, pieces, condition)."""
+    import ford.output as fo
+    from jinja2 import nodes as N
+
+    tdir = repo / "ford" / "templates"
+    links = []
+
+    def handle_output(tpl, node, conds):
+        text, dyn = "", []
+        for ch in node.nodes:
+            if isinstance(ch, N.TemplateData):
+                text += ch.data
+            elif isinstance(ch, N.Name) and ch.name == "project_url":
+                text += PU
+            else:
+                text += "\x00D%d\x00" % len(dyn)
+                dyn.append(ch)
+        for m in ASSET_ATTR_RE.finditer(text):
+            tag, attr, rest = m.group(1), m.group(2), m.group(3)
+            if rest.startswith("lists/") or rest.startswith("\x00D"):
+                continue  # navigation links (navConds)
+            ps = []
+            for part in re.split(r"(\x00D\d+\x00)", rest):
+                mm = re.fullmatch(r"\x00D(\d+)\x00", part)
+                if mm:
+                    ps.append(("dyn", _dyn_key_j(dyn[int(mm.group(1))])))
+                elif part:
+                    ps.append(("lit", part))
+            links.append((tpl, tag, attr, _merge_pieces(ps), conj(conds)))
+
+    def walk(tpl, node, conds):
+        if isinstance(node, N.If):
+            t = asset_j_cond(node.test)
+            for b in node.body:
+                walk(tpl, b, conds + [t])
+            neg = [("not", t)]
+            for el in node.elif_:
+                t2 = asset_j_cond(el.test)
+                for b in el.body:
+                    walk(tpl, b, conds + neg + [t2])
+                neg.append(("not", t2))
+            for b in node.else_:
+                walk(tpl, b, conds + neg)
+        elif isinstance(node, N.Output):
+            handle_output(tpl, node, conds)
+        else:
+            for ch in node.iter_child_nodes():
+                walk(tpl, ch, conds)
+
+    for f in sorted(tdir.glob("*.html")):
+        src = f.read_text()
+        n_text = len(re.findall(r"\{\{\s*project_url\s*\}\}/", src))
+        before = len(links)
+        walk(f.name, fo.env.parse(src), [])
+        n_nav = sum(1 for e in nav_entries if e[0] == f.name)
+        if len(links) - before + n_nav != n_text:
+            raise LookupError(f"{f.name}: {n_text} `{{{{ project_url }}}}/` URLs in the text, {len(links) - before} asset links + "
+                              f"{n_nav} navigation links recognised in the Jinja AST")
+    if not links:
+        raise LookupError("no asset links found in the templates")
+    return links
+
+
+def extract_aliases(repo: Path):
+    """The built-in aliases `main` hands to the Markdown object: name -> pieces below `project_url`; and the directory
+    below the output root under which the static pages are written (BasePage.page_dir), as one more "user tree"."""
+    tree = ast.parse((repo / "ford" / "__init__.py").read_text())
+    m = _func(tree, None, "main")
+    root_var, table = None, None
+    for n in ast.walk(m):
+        if isinstance(n, ast.Assign) and isinstance(n.targets[0], ast.Name) and ast.unparse(n.value) == "pathlib.Path(proj_data.project_url)":
+            root_var = n.targets[0].id
+        if isinstance(n, ast.Call) and ast.unparse(n.func) == "aliases.update" and n.args and isinstance(n.args[0], ast.Dict) \
+                and any(isinstance(k, ast.Constant) and k.value == "url" for k in n.args[0].keys):
+            table = n.args[0]
+    if root_var is None or table is None:
+        raise LookupError("main: `url_path = pathlib.Path(proj_data.project_url)` / `aliases.update({'url': ...})` not found")
+    aliases = []
+    for k, v in zip(table.keys, table.values):
+        if not (isinstance(k, ast.Constant) and isinstance(k.value, str) and isinstance(v, ast.Call) and ast.unparse(v.func) == "str" and len(v.args) == 1):
+            raise LookupError("main: built-in alias with an unexpected shape: " + ast.unparse(v))
+        rooted, ps = _py_pieces(v.args[0], {root_var: (True, [])})
+        if not rooted or ps is None:
+            raise LookupError("main: built-in alias not below project_url: " + ast.unparse(v))
+        aliases.append((k.value, _merge_pieces(ps)))
+    if {a for a, _ in aliases} != {"url", "media", "page"}:
+        raise LookupError("main: built-in aliases are no longer url / media / page: " + str([a for a, _ in aliases]))
+    otree = ast.parse((repo / "ford" / "output.py").read_text())
+    bp = _func(otree, "BasePage", "__init__")
+    page_dir = None
+    for n in bp.body:
+        if isinstance(n, ast.Assign) and ast.unparse(n.targets[0]) == "self.page_dir":
+            rooted, ps = _py_pieces(n.value, {})
+            if rooted and ps is not None:
+                page_dir = _merge_pieces(ps)
+    if page_dir is None:
+        raise LookupError("BasePage.__init__: self.page_dir is not a path below self.out_dir")
+    return aliases, (page_dir, ("user",), ("tt",), "PagetreePage.outfile = self.page_dir / self.obj.path; copies of page_dir below it")
+
+
+INDEX_TEST = "self.obj.filename.stem == 'index'"
+NONINDEX_TEST = "self.obj.filename.stem != 'index'"
+
+
+def _guard_atom(test):
+    t = ast.unparse(test)
+    if t == INDEX_TEST:
+        return "index"
+    if t == NONINDEX_TEST:
+        return "nonindex"
+    if isinstance(test, ast.UnaryOp) and isinstance(test.op, ast.Not):
+        inner = _guard_atom(test.operand)
+        return {"index": "nonindex", "nonindex": "index"}.get(inner, "unknown")
+    return "unknown"
+
+
+def _guard_join(atoms):
+    """conjunction of atoms -> always / indexOnly / nonIndexOnly / never"""
+    s = set(atoms)
+    if "unknown" in s or "never" in s or ("index" in s and "nonindex" in s):
+        return "never"   # a guard that is not understood is treated as "may not run": the theorem then fails
+    if "index" in s:
+        return "indexOnly"
+    if "nonindex" in s:
+        return "nonIndexOnly"
+    return "always"
+
+
+def extract_pagecopy(repo: Path):
+    """Under which guard PagetreePage.writeout runs its two copy loops (`copy_subdir` directories, `files`), as a function
+    of "this page is the index page of its directory"; the statements inside the loops are pinned."""
+    tree = ast.parse((repo / "ford" / "output.py").read_text())
+    fn = _func(tree, "PagetreePage", "writeout")
+    found = {}
+
+    def ends_with_exit(body):
+        return bool(body) and isinstance(body[-1], (ast.Return, ast.Raise))
+
+    def visit(stmts, atoms):
+        atoms = list(atoms)
+        for s in stmts:
+            if isinstance(s, ast.If):
+                a = _guard_atom(s.test)
+                neg = {"index": "nonindex", "nonindex": "index"}.get(a, "unknown")
+                visit(s.body, atoms + [a])
+                visit(s.orelse, atoms + [neg])
+                if ends_with_exit(s.body) and not ends_with_exit(s.orelse):
+                    atoms.append(neg)      # what follows only runs when the test was false
+                elif ends_with_exit(s.orelse) and not ends_with_exit(s.body):
+                    atoms.append(a)
+                elif any(isinstance(x, (ast.Return, ast.Raise)) for x in ast.walk(s)):
+                    atoms.append("unknown")
+            elif isinstance(s, ast.For):
+                it = ast.unparse(s.iter)
+                if it in ("self.obj.copy_subdir", "self.obj.files"):
+                    if it in found:
+                        raise LookupError(f"PagetreePage.writeout: two loops over {it}")
+                    found[it] = (_guard_join(atoms), "\n".join(ast.unparse(x) for x in s.body))
+                else:
+                    visit(s.body, atoms + ["unknown"])
+            elif isinstance(s, (ast.Return, ast.Raise)):
+                atoms.append("never")
+            elif isinstance(s, (ast.Try, ast.With, ast.While)):
+                for body in (getattr(s, "body", []), getattr(s, "orelse", []), getattr(s, "finalbody", [])):
+                    visit(body, atoms + ([] if isinstance(s, ast.With) else ["unknown"]))
+    visit(fn.body, [])
+    if set(found) != {"self.obj.copy_subdir", "self.obj.files"}:
+        raise LookupError("PagetreePage.writeout: the loops over self.obj.copy_subdir / self.obj.files were not found")
+    text = ast.unparse(fn)
+    for want in ("from_path = self.data['page_dir'] / self.obj.location", "to_path = self.page_dir / self.obj.location",
+                 "super(PagetreePage, self).writeout()"):
+        if want not in text:
+            raise LookupError("PagetreePage.writeout: statement changed: " + want)
+    cbody = found["self.obj.copy_subdir"][1]
+    if "item_path = from_path / item" not in cbody or "copytree(item_path, to_path / item)" not in cbody:
+        raise LookupError("PagetreePage.writeout: the copy_subdir loop no longer does copytree(from_path / item, to_path / item)")
+    fbody = found["self.obj.files"][1]
+    if "item_path = from_path / item" not in fbody or "shutil.copy(item_path, to_path)" not in fbody:
+        raise LookupError("PagetreePage.writeout: the files loop no longer does shutil.copy(from_path / item, to_path)")
+    pt = _func(tree, "PagetreePage", "outfile")
+    if "return self.page_dir / self.obj.path" not in ast.unparse(pt):
+        raise LookupError("PagetreePage.outfile is not page_dir / obj.path")
+    bp = ast.unparse(_func(tree, "BasePage", "__init__"))
+    if "self.page_dir = self.out_dir / 'page'" not in bp:
+        raise LookupError("BasePage.page_dir is not out_dir / 'page'")
+    # PageNode: copy_subdir of the page itself first, the project setting as the fall-back
+    ptree = ast.parse((repo / "ford" / "pagetree.py").read_text())
+    pn = ast.unparse(_func(ptree, "PageNode", "__init__"))
+    if "self.copy_subdir = self.meta.copy_subdir or proj_copy_subdir" not in pn:
+        raise LookupError("PageNode.copy_subdir is no longer `meta.copy_subdir or proj_copy_subdir`")
+    return {"copy_guard": found["self.obj.copy_subdir"][0], "files_guard": found["self.obj.files"][0]}
+
+
+def lpieces(ps) -> str:
+    return llist(("Assets.Piece.lit " if k == "lit" else "Assets.Piece.dyn ") + lstr(v) for k, v in ps)
+
+
+def show_pieces(ps) -> str:
+    return "".join(v if k == "lit" else "{" + v + "}" for k, v in ps)
+
+
 # ----------------------------------------------------------------- main
 
 def extract(repo: Path | None = None) -> dict:
@@ -718,6 +1168,11 @@ def extract(repo: Path | None = None) -> dict:
     vis = extract_visible(repo, page_map, parts)
     vis.update(extract_readmore(repo))
     vis.update(extract_relurl(repo))
+    vis.update(extract_pagecopy(repo))
+    vis["asset_writes"] = extract_asset_writes(repo)
+    vis["asset_links"] = extract_asset_links(repo, nav)
+    vis["aliases"], page_tree_write = extract_aliases(repo)
+    vis["asset_writes"].append(page_tree_write)
     return dict(page_map=page_map, list_conds=list_conds, out_dirs=out_dirs, allfiles=parts, main_pre=pre, nav=nav, **sfd, **vis)
 
 
@@ -725,6 +1180,7 @@ def to_lean(d: dict) -> str:
     L = ["/- GENERATED by translate/c09.py from ford/output.py, ford/sourceform.py, ford/fortran_project.py, ford/utils.py, ford/settings.py,",
          "   ford/__init__.py, ford/templates/base.html, ford/templates/index.html - do not edit -/",
          "import FordModel.Nav", "import FordModel.Url", "import FordModel.StrLink", "import FordModel.ReadMore", "import FordModel.Relurl",
+         "import FordModel.Assets",
          "namespace Ford.Generated.C09",
          "open Ford Ford.Nav Ford.Url", ""]
     L.append("def navTables : Nav.Tables := {")
@@ -783,6 +1239,26 @@ def to_lean(d: dict) -> str:
           "", "/-- ford.utils.normalise_path; what ford.output.relative_url searches for in the link text -/",
           "def relurlTables : Relurl.Tables := { normalise := Relurl.NormMode.%s, relurlResolves := %s }" % (
               d["normalise_mode"], "true" if d["relurl_resolves"] else "false")]
+    L += ["", "/-- every `{{ project_url }}/<path>` URL of the templates that is not a navigation link, and every file / tree /",
+          "    constant page that Documentation.writeout puts below the output directory -/",
+          "def assetTables : Assets.Tables := {", "  links := ["]
+    for i, (tpl, tag, attr, ps, c) in enumerate(d["asset_links"]):
+        L.append("    { tpl := %s, tag := %s, attr := %s, path := %s,\n      cond := %s }%s  -- %s: <%s %s> %s" % (
+            lstr(tpl), lstr(tag), lstr(attr), lpieces(ps), lcond(c), "," if i < len(d["asset_links"]) - 1 else "", tpl, tag, attr, show_pieces(ps)))
+    L += ["  ],", "  writes := ["]
+    for i, (ps, kind, c, src) in enumerate(d["asset_writes"]):
+        k = {"file": "Assets.Src.file", "page": "Assets.Src.page", "user": "Assets.Src.user"}.get(kind[0])
+        if k is None:
+            k = "(Assets.Src.shipped %s)" % llist(lstr(f) for f in kind[1])
+        L.append("    { dest := %s, src := %s,\n      cond := %s }%s  -- %s" % (
+            lpieces(ps), k, lcond(c), "," if i < len(d["asset_writes"]) - 1 else "", src.replace("\n", " ")[:110]))
+    L += ["  ],", "  aliases := ["]
+    L += ["    (%s, %s)%s  -- |%s| -> %s" % (lstr(a), lpieces(ps), "," if i < len(d["aliases"]) - 1 else "", a, show_pieces(ps) or "(root)")
+          for i, (a, ps) in enumerate(d["aliases"])]
+    L += ["  ]", "}", "",
+          "/-- PagetreePage.writeout: the guards of the loops over `self.obj.copy_subdir` and `self.obj.files` -/",
+          "def pageTables : Assets.PageTables := { copyGuard := Assets.CopyGuard.%s, filesGuard := Assets.CopyGuard.%s }" % (
+              d["copy_guard"], d["files_guard"])]
     L += ["", "end Ford.Generated.C09", ""]
     return "\n".join(L)
 
